@@ -237,10 +237,19 @@ def main(run):
         if len(cell) * int(round(np.linalg.det(smat))) > (24 if not thorough else 64):
             continue
         pm = rng.choice(["auto", "P"]) if cen != "P" else "P"
+        # the same crystal in another description (left-handed / sheared / permuted basis): every second run of the
+        # stream starts with a left-handed one; the oracles below are evaluated ON that description
+        relabel = None
+        if made == 1 or rng.random() < 0.25:
+            relabel = ["swap12", "negate3", "invert"][(run.seed + made) % 3] if made == 1 else rng.choice(sorted(gen.UNIMODULAR))
+            cell, _qmap, _smap = gen.relabelled_cell(cell, gen.UNIMODULAR[relabel])
+            smat = _smap(smat)
+            name = "%s[%s]" % (name, relabel)
+            run.count("compact description=%s (volume %s)" % (relabel, "negative" if cell.volume < 0 else "positive"))
         try:
             ph = gen.make_phonopy(cell, smat, pmat=pm)
         except Exception as e:  # constructor rejects: not this property's business
-            run.count("constructor-rejected")
+            run.count("constructor-rejected" + ("-relabelled" if relabel else ""))
             continue
         p2s, s2pp, nsym, perms = gen.compact_tables(ph)
         npa, ns = len(p2s), perms.shape[1]
@@ -422,6 +431,12 @@ def main(run):
             cell = gen.random_cell(rng, natom=rng.randint(1, 3))
             name = "random"
         smat = rng.choice([np.diag([1, 1, 1]), np.diag([2, 1, 1]), np.diag([1, 1, 2]), np.array([[1, 1, 0], [0, 1, 0], [0, 0, 1]])])
+        if done_pj == 1 or rng.random() < 0.25:
+            rl = ["swap12", "negate3", "invert"][(run.seed + tries) % 3] if done_pj == 1 else rng.choice(sorted(gen.UNIMODULAR))
+            cell, _qm, _sm = gen.relabelled_cell(cell, gen.UNIMODULAR[rl])
+            smat = _sm(smat)
+            name = "%s[%s]" % (name, rl)
+            run.count("pj description=%s (volume %s)" % (rl, "negative" if cell.volume < 0 else "positive"))
         try:
             ph = gen.make_phonopy(cell, smat, pmat="P")
         except Exception:
